@@ -203,6 +203,19 @@ def run(ctx, report):
         R1.violation('Expr.__ne__', 'Expr.__ne__', '__ne__ is not the negation of __eq__', where(mod, ne))
 
     R2 = report.rule('C15.D2', 'copy/visit completeness per node class', floor=16)
+    # flags stored on freshly constructed nodes outside expression.py (the evaluator marks unknown memory cells as terminal)
+    dynamic_flags = {}
+    for mname in ('eval_abs', 'expr_helper', 'emul_helper'):
+        m2 = ctx.mod(mname)
+        for f2 in [n for n in ast.walk(m2.tree) if isinstance(n, ast.FunctionDef)]:
+            assigns = sorted([n for n in ast.walk(f2) if isinstance(n, ast.Assign) and len(n.targets) == 1 and isinstance(n.targets[0], ast.Name)], key=lambda n: n.lineno)
+            for n in ast.walk(f2):
+                if isinstance(n, ast.Assign) and len(n.targets) == 1 and isinstance(n.targets[0], ast.Attribute) and isinstance(n.targets[0].value, ast.Name) \
+                        and n.targets[0].attr == 'is_term':
+                    # class of the nearest preceding binding of that name
+                    prev = [a for a in assigns if a.targets[0].id == n.targets[0].value.id and a.lineno < n.lineno]
+                    if prev and isinstance(prev[-1].value, ast.Call) and u(prev[-1].value.func) in NODE_CLASSES:
+                        dynamic_flags.setdefault(u(prev[-1].value.func), {})[n.targets[0].attr] = '%s.%s' % (mname, f2.name)
     for c in NODE_CLASSES:
         meths = M.methods[c]
         cdef = mod.cls(c)
@@ -215,11 +228,27 @@ def run(ctx, report):
             bad = False
             rets = [n for n in ast.walk(mi.fn) if isinstance(n, ast.Return)]
             for r in rets:
-                if not (isinstance(r.value, ast.Call) and u(r.value.func) == c):
+                val = r.value
+                if isinstance(val, ast.Name):
+                    # a returned local: every assignment to it must be the constructor call (attribute stores on it are flag copies)
+                    asg = [n.value for n in ast.walk(mi.fn) if isinstance(n, ast.Assign) and len(n.targets) == 1 and isinstance(n.targets[0], ast.Name) and n.targets[0].id == val.id]
+                    if asg and all(isinstance(v, ast.Call) and u(v.func) == c for v in asg):
+                        for v in asg:
+                            _check_ctor_call(R2, mod, c, 'copy', v, M)
+                        continue
+                if not (isinstance(val, ast.Call) and u(val.func) == c):
                     R2.violation(c + '.copy', '%s.copy:%s' % (c, norm(r)), '%s.copy does not construct a new %s: %s' % (c, c, norm(r)), where(mod, r))
                     bad = True
                 else:
-                    _check_ctor_call(R2, mod, c, 'copy', r.value, M)
+                    _check_ctor_call(R2, mod, c, 'copy', val, M)
+            # evaluation-control flags that the evaluator sets on instances of this class must survive the copy
+            for flag, setter in sorted(dynamic_flags.get(c, {}).items()):
+                inst = '%s.copy:flag:%s' % (c, flag)
+                if any(isinstance(n, ast.Attribute) and n.attr == flag for n in ast.walk(mi.fn)):
+                    R2.ok(inst, sample='%s.copy carries the flag %s (set by %s)' % (c, flag, setter))
+                else:
+                    R2.violation(inst, '%s.copy:flag:%s' % (c, flag), '%s sets %s on %s nodes, but %s.copy builds the copy without it: the copy evaluates differently from its original'
+                                 % (setter, flag, c, c), where(mod, mi.fn), witness='m = eval_expr(@32[eax]) (unknown cell, is_term); m.copy() is evaluated again to the current content')
             for f in M.fields[c]:
                 if f not in mi.read:
                     R2.violation(c + '.copy', '%s.copy:%s' % (c, f), '%s.copy drops field %s' % (c, f), where(mod, mi.fn))
@@ -385,6 +414,7 @@ def _check_ctor_call(R, mod, c, meth, call, M):
 
 
 MUTANTS = [
+    ('mem-copy-drops-term', 'miasmx/expression/expression.py', "        m.is_term = self.is_term\n", "", 'C15.D2'),
     ('int-eq-no-width', 'miasmx/expression/expression.py', "        return self.arg == a.arg and self.arg.size == a.arg.size", "        return self.arg == a.arg", 'C15.D1'),
     ('op-eq-zip', 'miasmx/expression/expression.py', "        if len(self.args) != len(a.args):\n            return False\n        for i, x in enumerate(self.args):\n            if not x == a.args[i]:\n                return False\n        return True\n    def __hash__(self):\n        h = hash(self.op)",
      "        for x, y in zip(self.args, a.args):\n            if not x == y:\n                return False\n        return True\n    def __hash__(self):\n        h = hash(self.op)", 'C15.D1'),
@@ -392,7 +422,7 @@ MUTANTS = [
      'return self.arg == a.arg and self.start == a.start and self.stop == a.stop',
      'return self.arg == a.arg and self.start == a.start', 'C15.D1'),
     ('mem-copy-segm', 'miasmx/expression/expression.py',
-     'return ExprMem(arg, size = self.size, segm = segm)', 'return ExprMem(arg, size = self.size, segm = None)', 'C15.D2'),
+     'm = ExprMem(arg, size = self.size, segm = segm)', 'm = ExprMem(arg, size = self.size, segm = None)', 'C15.D2'),
     ('cond-visit-skip', 'miasmx/expression/expression.py',
      '        src2 = self.src2.visit(cb)\n', '        src2 = self.src2\n', 'C15.D2'),
     ('id-hash-size', 'miasmx/expression/expression.py',
